@@ -42,9 +42,11 @@ Back(u) == [scheme |-> SchemeOf(Comps(u)), host |-> u.host, port |-> u.port, pat
 
 (* address classes for the list helpers: [ip, http] *)
 IPClasses == {"pub4", "pub6", "priv4", "loop4", "loop6", "unspec4", "unspec6", "linklocal", "dns", "localhost", "nil"}
-HTTPSuffix == {"none", "bare80", "http", "https", "tls-http"}     \* bare80: plain TCP on the port the http form uses (a component-wise prefix of it)
+HTTPSuffix == {"none", "bare80", "http", "https", "tls-http",      \* bare80: plain TCP on the port the http form uses (a component-wise prefix of it)
+               "p2p",                                             \* a libp2p address with the peer ID encapsulated: not HTTP
+               "http-p2p", "https-path", "https-path-p2p"}        \* HTTP addresses with something after the http component: a path, an encapsulated peer ID
 Addrs == {[ip |-> i, sfx |-> s] : i \in IPClasses \ {"nil"}, s \in HTTPSuffix} \cup {[ip |-> "nil", sfx |-> "none"]}
-IsHTTP(a) == a.sfx \notin {"none", "bare80"}
+IsHTTP(a) == a.sfx \notin {"none", "bare80", "p2p"}
 IsPublic(a) == a.ip \in {"pub4", "pub6", "dns"}
 Sel(s, P(_)) == SelectSeq(s, P)
 FindHTTP(l) == Sel(l, LAMBDA a : a.ip # "nil" /\ IsHTTP(a))
